@@ -1,7 +1,7 @@
 (* C06 — parsing is total: only ParseBaseException escapes, with sane diagnostics.
    Statements only.  `wf K` is the boolean well-formedness of a grammar relative to the set K of exception kinds that its
    parse actions are allowed to raise: it also demands that an empty And has mayIndexError set (as the constructor does)
-   and excludes the two constructs the model does not implement (Each, non-exact PrecededBy). *)
+   and excludes the one construct the model does not implement (non-exact PrecededBy).  Each ('&') is covered. *)
 From Coq Require Import List ZArith NArith Bool.
 From PP Require Import Model.Str Model.Results Model.Prog Model.Core Model.Entry Gen.GenLoc Proofs.LocProofs Proofs.Total.
 Import ListNotations.
